@@ -24,7 +24,7 @@ mod pt;
 
 use std::io::Write;
 
-use oxidd::{BooleanFunction, Function};
+use oxidd::{BooleanFunction, Function, ManagerRef};
 use proptest::strategy::{Strategy, ValueTree};
 use serde_json::json;
 
@@ -174,6 +174,48 @@ fn addvars_suite<K: BoolKind>(order: &[u32], threads: u32) -> Result<u64, String
     Ok(d)
 }
 
+/// A diagram of more than 100 000 nodes (f = OR_i x_i AND x_{i+16} over 32 variables in the
+/// order x_0 .. x_31): `node_count()` against an explicit walk, for f, its complement and a second
+/// function sharing most nodes, again after a collection. Node stores lay nodes out in pages or
+/// chunks; the small suites never leave the first one.
+fn big_suite<K: BoolKind>(threads: u32) -> Result<u64, String> {
+    const KH: u32 = 16;
+    let n = 2 * KH;
+    let order: Vec<u32> = (0..n).collect();
+    let mr = build::mk_manager::<K>(n, &order, 1 << 20, 1 << 16, threads);
+    let vs = build::vars::<K>(&mr, n);
+    let mut f = mr.with_manager_shared(|m| K::F::f(m));
+    for i in 0..KH as usize {
+        let t = vs[i].and(&vs[i + KH as usize]).map_err(|_| "big: oom".to_string())?;
+        f = f.or(&t).map_err(|_| "big: oom".to_string())?;
+    }
+    let g = f.xor(&vs[(n - 1) as usize]).map_err(|_| "big: oom".to_string())?;
+    let nf = f.not().map_err(|_| "big: oom".to_string())?;
+    let mut d = 0u64;
+    for round in 0..2 {
+        for (name, h) in [("f", &f), ("f xor x31", &g), ("not f", &nf)] {
+            let (cnt, walk) = (h.node_count(), K::walk_count(h));
+            if cnt != walk {
+                return Err(format!("big: node_count({name}) = {cnt}, an explicit walk over the diagram finds {walk} distinct nodes (round {round})"));
+            }
+            d = mix(d ^ cnt as u64);
+        }
+        // spot checks of the function itself
+        for a in [0u64, 0x0001_0001, 0x8000_8000, 0x8000_0000, 0x0000_ffff, 0xffff_0000, 0x1234_1234, 0x1234_4321] {
+            let args: Vec<(u32, bool)> = (0..n).map(|v| (v, (a >> v) & 1 == 1)).collect();
+            let exp = (a & 0xffff) & (a >> 16) != 0;
+            if f.eval(args.iter().copied()) != exp {
+                return Err(format!("big: f({a:#x}) != {exp} (round {round})"));
+            }
+        }
+        K::gc(&mr);
+    }
+    if K::KIND != BKind::Zbdd && f.node_count() < 100_000 {
+        return Err(format!("big: f has only {} nodes", f.node_count()));
+    }
+    Ok(d)
+}
+
 fn record<K: BoolKind>(out: &mut dyn Write, seed: u64, cases: u32, threads: &[u32]) {
     let checks = Checks { canon: true, structure: true, rc: true, node_count: true };
     for &th in threads {
@@ -195,6 +237,16 @@ fn record<K: BoolKind>(out: &mut dyn Write, seed: u64, cases: u32, threads: &[u3
             let v: serde_json::Value = res.lines.iter().filter_map(|l| serde_json::from_str(l).ok()).find(|v: &serde_json::Value| v.get("d").is_some() || v.get("err").is_some()).unwrap_or(json!({"err": format!("crash: {:?}", res.end)}));
             let _ = writeln!(out, "{}", json!({"case": format!("n3-addvars/{}/{:?}", K::NAME, order), "threads": th, "digest": v["d"], "err": v["err"]}));
         }
+    }
+    // (not for ZBDDs: without an apply cache their operations on a diagram of this size do not
+    // finish; the node stores and the node-set code are shared by all kinds)
+    for &th in threads.iter().filter(|_| K::KIND != BKind::Zbdd) {
+        let res = isolated(300, |w| {
+            let r = big_suite::<K>(th);
+            let _ = writeln!(w, "{}", json!({"d": r.as_ref().ok(), "err": r.as_ref().err()}));
+        });
+        let v: serde_json::Value = res.lines.iter().filter_map(|l| serde_json::from_str(l).ok()).find(|v: &serde_json::Value| v.get("d").is_some() || v.get("err").is_some()).unwrap_or(json!({"err": format!("crash: {:?}", res.end)}));
+        let _ = writeln!(out, "{}", json!({"case": format!("big/{}", K::NAME), "threads": th, "digest": v["d"], "err": v["err"]}));
     }
     // ZBDD set-family operations (subset0/subset1/change/union/intsec/diff/make_node), all 256
     // families of 3 variables: the exhaustive suite of C09 under this configuration
